@@ -183,6 +183,50 @@ class Ctx:
             return None
         return {os.path.join(REPO, "control", "zz_verif_bpf_fake.go"): outp}
 
+    OPTCHAIN_FALLBACK = '''package control
+
+import (
+	"github.com/daeuniverse/dae/common/assets"
+	"github.com/daeuniverse/dae/component/routing"
+	"github.com/sirupsen/logrus"
+)
+
+func c01ProductionOptimizers(log *logrus.Logger, locationFinder *assets.LocationFinder) []routing.RulesOptimizer {
+	return []routing.RulesOptimizer{
+		&routing.AliasOptimizer{},
+		&routing.DatReaderOptimizer{Logger: log, LocationFinder: locationFinder},
+		&routing.MergeAndSortRulesOptimizer{},
+		&routing.DeduplicateParamsOptimizer{},
+	}
+}
+
+var c01ProductionOptimizerExprs = []string{"(fallback copy)"}
+'''
+
+    def optchain_overlay(self, fallback=False):
+        """The optimizer chain NewControlPlane passes to routing.NewNormalizedProgram, regenerated from
+        /repo's current control/control_plane.go (translators/optchain) as a Go file for package control
+        (functions c01ProductionOptimizers / c01ProductionOptimizerExprs used by the routing harnesses).
+        Returns (overlay dict, description)."""
+        gen = os.path.join(CACHE, "gen")
+        os.makedirs(gen, exist_ok=True)
+        chain = os.path.join(gen, f"optchain_{self.prop}.go")
+        if os.path.exists(chain):
+            os.unlink(chain)
+        mode = "regenerated from control_plane.go"
+        if not fallback:
+            rc, out, dt = sh(["go", "run", "main.go", os.path.join(REPO, "control"), chain],
+                             cwd=os.path.join(VERIF, "translators", "optchain"), env=go_env(), timeout=600)
+            self.log.write(f"$ optchain [{dt:.1f}s rc={rc}] {out}\n")
+            if rc != 0:
+                fallback = True
+                mode = "FALLBACK copy (production call site not extractable: %s)" % out.strip()[-200:]
+        elif fallback:
+            mode = "FALLBACK copy (the regenerated chain did not compile in the harness)"
+        if fallback:
+            open(chain, "w").write(self.OPTCHAIN_FALLBACK)
+        return {os.path.join(REPO, "control", "zz_verif_optchain.go"): chain}, mode
+
     def go_test_build(self, pkg, harness_files, out_name, tags="dae_stub_ebpf", extra_overlay=None,
                       keep_intree_tests=False, timeout=3000, pkgname=None):
         """Compile /repo/<pkg> as a test binary with the harness files injected by -overlay.
